@@ -1,5 +1,7 @@
 (* c08 model driver: one case per line
      kind n (base size tag)*n m (query)*m
+   kinds 42/43 (STACK WIN tables, model kind 7): a table entry is start-end:tag@start+len (the model proves that an
+   entry is filed under its own record's range, c08_win_sorted_disjoint), a lookup answer is tag@address+size
    output: one line  P|OK;start-end:tag,...;g1|g2|...   (each g = tags joined by '+', '-' if none) *)
 let () =
   try
@@ -9,7 +11,7 @@ let () =
         let toks = Array.of_list (split_ws line) in
         let pos = ref 0 in
         let next () = let t = toks.(!pos) in incr pos; t in
-        let kind = (match int_of_string (next ()) with 11 | 12 | 13 | 14 | 15 | 16 -> 1 | 17 -> 2 | 41 -> 4 | 42 | 43 -> (-1) | k -> k) |> z_of_int in
+        let kind = (match int_of_string (next ()) with 11 | 12 | 13 | 14 | 15 | 16 -> 1 | 17 -> 2 | 41 -> 4 | 42 | 43 -> 7 | k -> k) |> z_of_int in
         let n = int_of_string (next ()) in
         let ents = List.init n (fun _ ->
           let b = z_of_string (next ()) in
@@ -24,10 +26,15 @@ let () =
         else begin
           Buffer.add_string b "OK;";
           Buffer.add_string b (String.concat ","
-            (List.map (fun ((s, e), t) -> string_of_z s ^ "-" ^ string_of_z e ^ ":" ^ string_of_z t) (o_table o)));
+            (List.map (fun ((s, e), t) ->
+               string_of_z s ^ "-" ^ string_of_z e ^ ":" ^ string_of_z t ^
+               (if kind = z_of_int 7 then "@" ^ string_of_z s ^ "+" ^ ZA.to_string (ZA.succ (ZA.sub (z_to_zt e) (z_to_zt s))) else ""))
+               (o_table o)));
           Buffer.add_string b ";";
           Buffer.add_string b (String.concat "|"
-            (List.map (fun g -> if g = [] then "-" else String.concat "+" (List.map string_of_z g)) (o_gets o)))
+            (List.map (fun g -> if g = [] then "-" else
+               if kind = z_of_int 7 then (match g with [t; a; sz] -> string_of_z t ^ "@" ^ string_of_z a ^ "+" ^ string_of_z sz | _ -> "?")
+               else String.concat "+" (List.map string_of_z g)) (o_gets o)))
         end;
         print_endline (Buffer.contents b)
       end
